@@ -575,4 +575,5 @@ def run(ctx):
         "parameter store is followed by check_arg_bounds(); (R14.2) parameter fields are stored only from their normalisers; (R14.3) check_arg_in_bounds accepts a value exactly on the "
         "documented interval for each of the four bound types, evaluated over all 5 order types, and every violation code raises; (R14.4) derived quantities are computed, not cached; "
         "(R14.5) dimension-dependent state is refreshed by set_dim; (R14.6) no call drops a configuration flag (latlon/temporal/geo_scale/mesh_type/value_type) the caller has in scope. NOT decided: equality with a directly constructed model as a whole (values)."
+        ' (R14.12) a setter that stores before it checks puts the old values back when the check raises (rejected values are not kept).'
     )
